@@ -46,7 +46,7 @@ def items_for(rng, kind, idx):
         return rng.choice(TRAIT_ITEMS)
     if kind == "impl":
         return rng.choice(IMPL_ITEMS)
-    b = FnCaseBuilder("x", rng, mode=kind, options=[], profile={"deps_kinds": ["generic_ref", "impl_ref", "generic_val"]})
+    b = FnCaseBuilder("x", rng, mode=kind, options=[], profile={"deps_kinds": ["generic_ref", "impl_ref", "generic_val"] + (["concrete_ref"] if kind == "fn" else [])})
     b.build()
     # drop the attribute line(s) of the subject, keep helper-free item text
     lines = b.lines
@@ -241,6 +241,7 @@ def run(tier, seed):
         ws.write()
         ws.build()
     by = {}
+    nested = {}
     for gi, g in enumerate(groups):
         outs = {}
         for build in ("off", "on"):
@@ -254,6 +255,10 @@ def run(tier, seed):
                 vi = line2v.get(r["line"])
                 if vi is not None and vi not in firsts:
                     firsts[vi] = r
+                elif vi is not None:
+                    # expansions nested in the first one (the leaf trait of a concrete-deps fn is entraited by an attribute the
+                    # first expansion emits): part of what the invocation expands to
+                    nested.setdefault((gi, vi), []).append(r)
             for vi, r in firsts.items():
                 outs[vi] = r
         missing = [v[0] for vi, v in enumerate(g.variants) if vi not in outs]
@@ -273,6 +278,28 @@ def run(tier, seed):
                 rep.bump("pairs_compared")
                 rep.bucket("pair_kinds", v[0].rstrip("0123456789"))
                 l = tok.leaves(r["output"], True)
+                if l == ref_l:
+                    def nested_leaves(x):
+                        # what the nested invocation emits, minus the unimock attribute the *first* expansion put on the trait: in
+                        # the build with the feature that attribute has already been expanded (and consumed) when the nested
+                        # invocation runs, in the build without it `::entrait::__unimock` does not resolve and it is still there
+                        out = x.get("output") or []
+                        i, kept = 0, []
+                        while i + 1 < len(out) and tok.is_p(out[i], "#") and tok.is_g(out[i + 1], "["):
+                            if tok.attr_path(out[i + 1]["s"]) != "::entrait::__unimock::unimock":
+                                kept += out[i:i + 2]
+                            i += 2
+                        return tok.leaves(kept + out[i:], True)
+                    na = [nested_leaves(x) for x in nested.get((gi, g.variants.index(v)), [])]
+                    nb = [nested_leaves(x) for x in nested.get((gi, g.variants.index(ref_v)), [])]
+                    if na or nb:
+                        rep.bump("nested_expansions_compared")
+                    if na != nb:
+                        rep.violation(index[(gi, v[4])].id, "not-equivalent:nested:" + v[0].rstrip("0123456789"),
+                                      "`%s(%s)` [%s] and `%s(%s)` [%s] expand alike, but the invocations nested in the output expand differently on the same %s" % (
+                                          v[1], v[2], v[4], ref_v[1], ref_v[2], ref_v[4], g.kind),
+                                      {"item": g.item, "a": [tok.render(x.get("output") or [], 2000) for x in nested.get((gi, g.variants.index(v)), [])],
+                                       "b": [tok.render(x.get("output") or [], 2000) for x in nested.get((gi, g.variants.index(ref_v)), [])]})
                 if l != ref_l:
                     d = next((i for i, (x, y) in enumerate(zip(l, ref_l)) if x != y), min(len(l), len(ref_l)))
                     rep.violation(index[(gi, v[4])].id, "not-equivalent:" + v[0].rstrip("0123456789"),
